@@ -758,7 +758,7 @@ Definition char_sentinel (c : N) : bool :=
   ((33 <=? c) && (c <=? 126)) || (modelled_nonascii c && negb (c =? 160) && negb (c =? 173)).
 Definition is_ws (c : N) : bool := (c =? 32) || (c =? 9) || (c =? 10) || (c =? 13).
 
-(* ExitEscapeChar (the lexer admits exactly these characters) *)
+(* ExitEscapeChar (the lexer lets exactly these characters through) *)
 Definition escape_char (c : N) : option N :=
   if (c =? 114) || (c =? 82) then Some 13
   else if (c =? 110) || (c =? 78) then Some 10
